@@ -400,6 +400,100 @@ def standard_front(run, prop_id, targets=None, allowed_axioms=(), gen=None, clea
     return res
 
 
+def driver_build(extract_targets, timeout=1500):
+    """Mode B: (re)extract the models (make Extract/*.vo writes ocaml/gen/*.ml) and build the OCaml driver."""
+    ok, log = coq_build(list(extract_targets), timeout=timeout)
+    if not ok:
+        return False, log
+    with Lock("dune"):
+        rc, out = sh(["dune", "build", "./driver.exe"], cwd=os.path.join(ROOT, "ocaml"), timeout=timeout)
+    return rc == 0, log + out
+
+
+def parse_result(path):
+    """result.txt of a mode-B harness module: `key value` lines, `kind <k> <n>`, `DISAGREE ...`, `ORACLE ...`."""
+    res = {"kinds": {}, "disagree": [], "oracle": [], "samples": []}
+    for line in open(path):
+        line = line.rstrip("\n")
+        if line.startswith("DISAGREE "):
+            res["disagree"].append(line[9:])
+        elif line.startswith("ORACLE "):
+            res["oracle"].append(line[7:])
+        elif line.startswith("SAMPLE "):
+            res["samples"].append(line[7:])
+        elif line.startswith("kind "):
+            _, k, v = line.split(" ", 2)
+            res["kinds"][k] = int(v)
+        elif " " in line:
+            k, v = line.split(" ", 1)
+            try:
+                res[k] = int(v)
+            except ValueError:
+                res[k] = v
+    return res
+
+
+def modeb_check(run, prop, harness_name, extract, entry, rule, trusted_extra=(), assumptions=(), allowed_axioms=(),
+                harness_args=None, replay=None, nontrivial_key="mutations"):
+    """Common body of mode-B checks (extracted model + oracle callbacks)."""
+    run.trusted = BASE_TRUSTED + [
+        "Coq extraction (Require ExtrOcamlBasic only; no Extract Constant/Inductive of our own) and ocaml/{proto,driver,drv_*}.ml",
+        "harness/src/oracle.rs: real merlin / k256 / sha2 / hmac behind the model's uninterpreted functions",
+    ] + list(trusted_extra)
+    run.assumptions = list(assumptions)
+    front = standard_front(run, prop, allowed_axioms=allowed_axioms, clean=(run.tier == "thorough"))
+    if not front["harness_ok"]:
+        run.violation("harness does not build against /repo", {"theorem_or_correspondence": "harness build",
+                      "log": front["harness_log"][-800:]}, found_input=False)
+        return None
+    dok, dlog = driver_build(extract)
+    run.oblige("extraction + OCaml driver build", dok)
+    if not dok:
+        run.violation("extracted model driver does not build", {"theorem_or_correspondence": "extraction/dune",
+                      "log": dlog[-800:]}, found_input=False)
+        return None
+    args = {"seed": run.seed, "tier": run.tier, "out": run.dir}
+    args.update(harness_args or {})
+    if replay:
+        args["replay"] = replay
+    rpath = os.path.join(run.dir, "result.txt")
+    if os.path.exists(rpath):
+        os.remove(rpath)
+    rc, out = harness(harness_name, args)
+    if rc != 0 or not os.path.exists(rpath):
+        run.oblige("harness run", False)
+        run.violation("harness run failed (rc=%s)" % rc, {"theorem_or_correspondence": "harness run", "log": out[-800:]},
+                      found_input=False)
+        return None
+    res = parse_result(rpath)
+    run.evaluations = res.get("evaluations", 0)
+    run.nontrivial = res.get(nontrivial_key, 0)
+    run.rule = rule
+    run.samples = res["samples"][:6] or [l.rstrip() for l in open(os.path.join(run.dir, "cases.txt")).readlines()[:3]] \
+        if os.path.exists(os.path.join(run.dir, "cases.txt")) or res["samples"] else ["see build/run/%s" % prop]
+    run.extra["kinds"] = res["kinds"]
+    run.extra["oracle_queries"] = res.get("oracle_queries", 0)
+    run.oblige("implementation-only oracle (the property checked directly on the real code)", not res["oracle"])
+    run.oblige("correspondence %s: extracted model = implementation on every case" % prop, not res["disagree"])
+    if res["oracle"]:
+        run.violation("the real code violates the property", {"entry": entry, "input": res["oracle"][0],
+                      "count": len(res["oracle"]), "disagreeing": "implementation-only oracle"})
+        return res
+    broken = []
+    if not front["gen_ok"]:
+        broken.append("T1 translator: " + front["gen_log"].strip()[-300:])
+    if not front["build_ok"]:
+        broken.append("proof build of Props/%s.vo: %s" % (prop, front["build_log"][-600:]))
+    elif front["audit"] and not front["audit"]["ok"]:
+        broken.append("assumption audit: " + "; ".join(front["audit"]["problems"]))
+    if res["disagree"]:
+        broken.append("correspondence %s: %d disagreements, first: %s" % (prop, len(res["disagree"]), res["disagree"][0][:300]))
+    if broken:
+        run.violation("; ".join(b[:100] for b in broken), {"theorem_or_correspondence": broken, "entry": entry,
+                      "first_disagreement": (res["disagree"] or [None])[0]}, found_input=False)
+    return res
+
+
 BASE_TRUSTED = [
     "Coq 8.16.1 kernel and vm_compute (no native_compute)",
     "tools/gen_model.py (T1 translator) and tools/vlib.py + bin/vcheck (orchestration, output parsing)",
